@@ -21,6 +21,15 @@ static double nv_epsilon0(void) { return 1e-15; }
 static double nv_epsilon1(void) { return 1e-10; }
 static double nv_stpmin(void) { return 2.220446049250313e-15; }
 
+/* More-Thuente / CG_DESCENT: further registered parameters and the interpolation kernels (arbitrary doubles) */
+double nv_delta, nv_theta, nv_ro, nv_gamma, nv_cgd_epsilon;
+static double nv_param_delta(void) { return nv_delta; }
+static double nv_stpmax(void) { return 450359962737049.6; }
+static double nv_cubic(const struct nv_lstep* u, const struct nv_lstep* v) { return nv_nondet_double(); }
+static double nv_quadratic(const struct nv_lstep* u, const struct nv_lstep* v) { return nv_nondet_double(); }
+static double nv_secant(const struct nv_lstep* u, const struct nv_lstep* v) { return nv_nondet_double(); }
+static struct nv_lstep nv_lstep_make3(double t, double f, double g) { struct nv_lstep r; r.t = t; r.f = f; r.g = g; return r; }
+
 /* ghost records of where the acceptance predicates were evaluated */
 struct nv_pred { uint64_t ver, origin; double t, c; _Bool res; };
 struct nv_pred nv_armijo, nv_wolfe, nv_swolfe;
@@ -112,6 +121,19 @@ __CPROVER_decreases(max_iterations - i)
 #define NV_LOOP_fletcher_do_get_1 \
 __CPROVER_assigns(i, step_size, prev, curr, *state, nv_ver_counter, nv_armijo, nv_swolfe) \
 __CPROVER_loop_invariant(1 <= i && i <= (max_iterations > 1 ? max_iterations : 1) && NV_AT(state, state0, step_size) && state->valid && NV_VERS(20000)) \
+__CPROVER_decreases(max_iterations - i)
+
+/* More-Thuente (do_get + its step kernel dcstep, both real code): success => the state is the valid evaluation at the
+ * returned step; the value f and the slope g the convergence test reads are the ones of the current trial state; at most
+ * max_iterations evaluations; the loop terminates.  NOT claimed here: that success implies Armijo + strong Wolfe -- the
+ * function tests them inline (`f <= ftest && |g| <= gtol*(-ginit)`) and has four further `return {true, stp}` exits, see
+ * the real-arithmetic contract advertised/morethuente_do_get (adv_smt.py). */
+#define NV_CONTRACT_morethuente_do_get NV_DOGET_REQUIRES NV_DOGET_ASSIGNS NV_DOGET_ENSURES_STATE \
+__CPROVER_ensures(nv_ver_counter - __CPROVER_old(nv_ver_counter) <= (uint64_t)nv_max_iterations)
+#define NV_LOOP_morethuente_do_get_1 \
+__CPROVER_assigns(i, stage, brackt, stp, f, g, stmin, stmax, width, width1, stx, fx, gx, sty, fy, gy, *state, nv_ver_counter) \
+__CPROVER_loop_invariant(0 <= i && i <= max_iterations && NV_AT(state, state0, stp) && state->valid && NV_VERS(20000)) \
+__CPROVER_loop_invariant(NV_SAME(f, state->m_fx) && NV_SAME(g, state->dg)) \
 __CPROVER_decreases(max_iterations - i)
 
 /* the virtual do_get as seen from lsearchk_t::get: the common part of every implementation's contract */
